@@ -27,15 +27,29 @@ ASSUMES = [
 TRUSTED = ["twisted.internet.task.Clock as the deterministic scheduler (callLater(1)/advance(1))",
            "twisted.internet.defer.Deferred callback semantics (exceptions in callbacks are swallowed into the chain)"]
 MANIFEST = {
-    "text": "Lean theorems (TwistedProps/C11.lean) over all operation histories of the Cooperator model: a task is advanced "
-            "only while unpaused, unfinished and not waiting on a Deferred it yielded; a runnable task's rank strictly "
-            "decreases with every work unit given to another task (bounded wait); every whenDone/coiterate Deferred fires "
-            "exactly once with the value of the task's (unique) completion; pause/stop on a finished task raise the class of "
-            "that completion. Model tied to task.py by differential runs of whole histories; an independent history oracle "
-            "checks the same statement on the real code.",
+    "text": "Lean theorems (TwistedProps/C11.lean) over all balanced operation histories of the Cooperator model (any length, scripts, "
+            "tick budgets, firing order): never_advanced_unless_runnable_partial — every next() call found its task unpaused, "
+            "unfinished and not waiting on a Deferred it yielded (partial only in the Balanced hypothesis, see the finding); "
+            "whenDone_fires_exactly_once — no whenDone/coiterate Deferred is ever called back twice, each is un-fired exactly while "
+            "its task is unfinished and afterwards holds the task's stored result, which matches the completion kind (iterator on "
+            "exhaustion, TaskStopped, SchedulerStopped, the iterator's exception or the yielded Deferred's failure), whether it was "
+            "registered before completion (fired by _completeWith, which never raises) or requested after (fired at once); "
+            "failed_with_deferred_failure_was_errbacked — a result 'failure of Deferred j' implies j was errbacked; "
+            "whenDone_value_never_changes + finished_task_stays_finished + whenDone_deferred_never_lost — a task completes once, a fired "
+            "value is final, a Deferred is never dropped or re-owned; "
+            "ops_on_finished_raise_matching — pause/stop on a finished task raise the class of its completion; "
+            "no_starvation — a task that stays in _tasks (= runnable, in_tasks_iff_runnable) through a stretch of the history without "
+            "receiving a next() call sees fewer than N^2 next() calls in that stretch (N = number of tasks): every whole step of the "
+            "model is a legal sequence of the four list/iterator moves (step_moves) and each work unit of another task strictly "
+            "decreases a rank; tick_scheduled_when_runnable — a started Cooperator with non-empty _tasks always has a delayed call "
+            "pending (an un-started one has _mustScheduleOnStart set), and that tick calls next() at least once "
+            "(tick_advances_some_task). Model tied to task.py by differential runs of whole "
+            "histories; an independent history oracle checks the same statement on the real code.",
     "note": "trusts Lean kernel, the hand-written model of Cooperator/CooperativeTask (differentially tied), CPython list-iterator "
-            "semantics; re-entrant use from callbacks is outside the explored histories",
-    "technique": "Lean 4 proof (state invariant + ranking function) + differential tie + history oracle",
+            "semantics; re-entrant use from callbacks is outside the explored histories; the starvation bound proved is N^2 work units "
+            "(the oracle checks the tighter (departures+1)*(N-1) on the real code)",
+    "technique": "Lean 4 proof (state invariants: membership/pause-count, observer ownership, scheduling; ranking function over "
+                 "move sequences) + differential tie + history oracle",
     "design_ref": "DESIGN.md §7 C11",
 }
 
